@@ -74,6 +74,22 @@ BuildLog::~BuildLog() {
   Close();
 }
 
+namespace {
+
+/// Whether the last byte of the (non-empty) file at |path| is a newline.
+bool EndsWithNewline(const std::string& path) {
+  FILE* f = fopen(path.c_str(), "rb");
+  if (!f)
+    return true;
+  int last = '\n';
+  if (fseek(f, -1, SEEK_END) == 0)
+    last = fgetc(f);
+  fclose(f);
+  return last == '\n';
+}
+
+}  // namespace
+
 bool BuildLog::OpenForWrite(const std::string& path, const BuildLogUser& user,
                             std::string* err) {
   if (needs_recompaction_) {
@@ -149,6 +165,12 @@ bool BuildLog::OpenForWriteIfNeeded() {
 
   if (ftell(log_file_) == 0) {
     if (fprintf(log_file_, kFileSignature, kCurrentVersion) < 0) {
+      return false;
+    }
+  } else if (!EndsWithNewline(log_file_path_)) {
+    // The last line was torn by a crash.  Terminate it, so that the first
+    // record appended now is not glued to it and lost on the next load.
+    if (fputc('\n', log_file_) == EOF) {
       return false;
     }
   }
